@@ -67,7 +67,7 @@ def run(chk: common.Check):
         ins.append({"self": {"charge": float(rng.choice([-1, 1])), "model_pka": rng.uniform(0, 14), "pka_value": rng.uniform(-3, 18),
                              "num_volume": 0.0, "titratable": rng.random() > 0.1},
                     "parameters": {"Nmin": 280.0, "Nmax": 560.0, "desolvationSurfaceScalingFactor": 0.25, "coulomb_cutoff1": 4.0,
-                                   "coulomb_cutoff2": 10.0, "pH": 7.0},
+                                   "coulomb_cutoff2": 10.0, "pH": 7.0, "desolvationPrefactor": -13.0, "desolvationAllowance": 0.0},
                     "ph": rng.uniform(0, 14), "self_determinants_coulomb": [round(rng.uniform(-2, 2), 2) for _ in range(rng.randint(0, 4))]})
 
     def real_fold(ref):
@@ -144,7 +144,7 @@ def run(chk: common.Check):
         grid_pts = (f"(match Grid.make_grid 5000 {qlit(grid[0])} {qlit(grid[1])} {qlit(grid[2])} with Some l => "
                     f"map (fun q => let r := Qred q in flit (Qnum r) (Zpos (Qden r))) l | None => [] end)")
         o = lambda x: f"match {x} with Some v => fout v | None => (9,9,9)%Z end"
-        pexprs.append(f"(let N := NumFlT {p10} {l10} in let P := mk_params 0 0 0 0 0 0 in let gs := {gl} in "
+        pexprs.append(f"(let N := NumFlT {p10} {l10} in let P := mk_params 0 0 0 0 0 0 0 0 in let gs := {gl} in "
                       f"let prof := map (fun ph => (ph, @{fn} float N P gs ph)) {grid_pts} in "
                       f"flat_map (fun p => [fout (fst p); fout (snd p)]) prof ++ (let op := @optimum float N prof in [{o('fst op')}; fout (snd op)]) ++ "
                       f"(let r := @range_80pct float N prof in [{o('fst r')}; {o('snd r')}]) ++ "
